@@ -1,10 +1,10 @@
-"""Fail-closed translator for sktime/performance_metrics/forecasting/_functions.py (property C06).
+"""Fail-closed translator for sktime/performance_metrics/forecasting (property C06).
 
 Emits build/coq/C06/Gen.v with
 
   gen_percentage_error / gen_relative_error / gen_asymmetric_error
-      the three private helpers, translated expression by expression into Q arithmetic
-      (numpy element-wise operations become the scalar operation applied per horizon step);
+      the three private helpers as Q expressions (numpy element-wise operations become the scalar
+      operation applied per horizon step);
   gen_struct : mname -> opts -> metric
       for each of the 18 public functions, WHICH helper it calls with WHICH arguments, which
       point loss (np.abs / np.square / asymmetric), which aggregate (np.average / np.mean ->
@@ -12,185 +12,35 @@ Emits build/coq/C06/Gen.v with
       the `== 0 -> EPS` replacement -> geometric mean), whether and where np.sqrt is applied, how
       multioutput is handled, and for scaled / relative losses which inner metric is divided by
       which clamped denominator;
-  gen_defaults : mname -> opts
-      the default values of the option parameters.
+  gen_defaults, gen_fname
+      the default values of the option parameters; the python name each row was read from;
 
-coq/C06/Bridge.v proves each of them equal to the hand-written textbook model for ALL arguments.
-Anything the translator does not recognise raises Unsupported (the harness reports a broken tie).
+and build/coq/C06/GenWrap.v with the wrapper facts of the 18 metric classes.
+
+Nothing here looks at the TEXT of a statement.  Every function / method is executed symbolically
+(translator/metricsym.py: calls of same-module helpers inlined, guard clauses, temporaries, renamed
+locals, conditional expressions, shared sub-expressions all vanish in the term) and the readers
+below inspect the term the function computes in each MODE (horizon_weight None / array,
+multioutput 'raw_values' / 'uniform_average' / array, square_root False / True):
+
+  simple metric   raw = [sqrt] AGG(POINT(BASE))            with the same POINT weighted and unweighted,
+                  uniform = np.mean(raw), weights = np.average(raw, weights=multioutput)
+  scaled metric   [sqrt] (f(y_true, y_pred, horizon_weight, multioutput)
+                          / np.maximum(f(y_train[sp:], y_train[:-sp], multioutput), EPS))
+  relative_loss   L(y_true, y_pred, ...) / np.maximum(L(y_true, y_pred_benchmark, ...), EPS)
+
+coq/C06/Bridge.v proves each generated definition equal to the hand-written textbook model for ALL
+arguments.  Anything the readers do not recognise raises Unsupported (a broken tie).
 """
 import ast
 import os
 
+from translator.metricsym import (ARR, FALSE, K, NONE, P, N, TRUE, Module, Unsupported, call,
+                                  construct, contains, evaluate, external_bases, is_k, kval, kwd,
+                                  method_term, mro, show, signature, strip_raise, subst)
+from translator.metricsym import _need      # noqa: F401  (re-exported for readers below)
+
 SRC = "sktime/performance_metrics/forecasting/_functions.py"
-
-
-class Unsupported(Exception):
-    pass
-
-
-def _need(cond, what, node=None):
-    if not cond:
-        where = " at line %s" % getattr(node, "lineno", "?") if node is not None else ""
-        raise Unsupported(what + where)
-
-
-def _strip_doc(fn):
-    body = list(fn.body)
-    if body and isinstance(body[0], ast.Expr) and isinstance(body[0].value, ast.Constant) \
-            and isinstance(body[0].value.value, str):
-        body = body[1:]
-    return body
-
-
-def _u(e):
-    return ast.unparse(e)
-
-
-# ------------------------------------------------------------------------------------------------
-# part 1: element-wise helpers -> Q expressions
-
-
-class Helper:
-    """statements: Assign / tuple-Assign of dict lookups / If on a bool parameter / Return."""
-
-    def __init__(self, fn, qparams, bparams, fparams):
-        self.fn = fn
-        self.q = set(qparams)       # rational parameters
-        self.b = set(bparams)       # bool parameters
-        self.f = set(fparams)       # 'squared' / 'absolute' selector parameters (pw0)
-        self.locals = set()
-        self.fdict = None           # name of the {'squared': np.square, 'absolute': np.abs} dict
-        self.fvars = {}             # local function variable -> selector parameter
-
-    def expr(self, e):
-        if isinstance(e, ast.Constant):
-            v = e.value
-            _need(isinstance(v, (int, float)) and not isinstance(v, bool) and float(v).is_integer(),
-                  "constant %r" % (v,), e)
-            return "(%d)" % int(v) if v < 0 else "%d" % int(v)
-        if isinstance(e, ast.Name):
-            if e.id == "EPS":
-                return "EPS"
-            _need(e.id in self.q or e.id in self.locals, "name " + e.id, e)
-            return e.id
-        if isinstance(e, ast.UnaryOp) and isinstance(e.op, ast.USub):
-            return "(- %s)" % self.expr(e.operand)
-        if isinstance(e, ast.BinOp):
-            ops = {ast.Add: "+", ast.Sub: "-", ast.Mult: "*", ast.Div: "/"}
-            _need(type(e.op) in ops, "operator " + _u(e), e)
-            return "(%s %s %s)" % (self.expr(e.left), ops[type(e.op)], self.expr(e.right))
-        if isinstance(e, ast.Call):
-            _need(not e.keywords, "keywords in " + _u(e), e)
-            fn = _u(e.func)
-            a = e.args
-            if fn == "np.abs" and len(a) == 1:
-                return "(Qabs %s)" % self.expr(a[0])
-            if fn == "np.square" and len(a) == 1:
-                x = self.expr(a[0])
-                return "(%s * %s)" % (x, x)
-            if fn == "np.maximum" and len(a) == 2:
-                return "(qmax %s %s)" % (self.expr(a[0]), self.expr(a[1]))
-            if fn == "np.minimum" and len(a) == 2:
-                return "(qmin %s %s)" % (self.expr(a[0]), self.expr(a[1]))
-            if fn == "np.where" and len(a) == 3:
-                return "(if %s then %s else %s)" % (self.cond(a[0]), self.expr(a[1]),
-                                                     self.expr(a[2]))
-            if fn in self.fvars and len(a) == 1:
-                return "(pwf0 %s %s)" % (self.fvars[fn], self.expr(a[0]))
-            raise Unsupported("call %s at line %d" % (_u(e), e.lineno))
-        raise Unsupported("expression %s at line %d" % (_u(e), e.lineno))
-
-    def cond(self, e):
-        if isinstance(e, ast.Name):
-            _need(e.id in self.b, "condition on " + e.id, e)
-            return e.id
-        _need(isinstance(e, ast.Compare) and len(e.ops) == 1, "condition " + _u(e), e)
-        a, b = self.expr(e.left), self.expr(e.comparators[0])
-        op = e.ops[0]
-        if isinstance(op, ast.GtE):
-            return "(Qle_bool %s %s)" % (b, a)
-        if isinstance(op, ast.LtE):
-            return "(Qle_bool %s %s)" % (a, b)
-        if isinstance(op, ast.Lt):
-            return "(qltb %s %s)" % (a, b)
-        if isinstance(op, ast.Gt):
-            return "(qltb %s %s)" % (b, a)
-        raise Unsupported("comparison %s at line %d" % (_u(e), e.lineno))
-
-    def stmts(self, body):
-        _need(body, "function falls off its end", self.fn)
-        s, rest = body[0], body[1:]
-        if isinstance(s, ast.Return):
-            _need(not rest and s.value is not None, "code after return", s)
-            return self.expr(s.value)
-        if isinstance(s, ast.If):
-            saved = (set(self.locals), dict(self.fvars))
-            t = self.cond(s.test)
-            a = self.stmts(list(s.body) + rest)
-            self.locals, self.fvars = set(saved[0]), dict(saved[1])
-            _need(s.orelse, "if without else", s)
-            b = self.stmts(list(s.orelse) + rest)
-            return "(if %s then %s else %s)" % (t, a, b)
-        _need(isinstance(s, ast.Assign) and len(s.targets) == 1, "statement " + _u(s), s)
-        tg = s.targets[0]
-        if isinstance(tg, ast.Name) and isinstance(s.value, ast.Dict):
-            keys = [k.value if isinstance(k, ast.Constant) else None for k in s.value.keys]
-            vals = [_u(v) for v in s.value.values]
-            _need(dict(zip(keys, vals)) == {"squared": "np.square", "absolute": "np.abs"}
-                  and len(keys) == 2, "function table " + _u(s), s)
-            self.fdict = tg.id
-            return self.stmts(rest)
-        if isinstance(tg, ast.Tuple):
-            _need(isinstance(s.value, ast.Tuple) and len(tg.elts) == len(s.value.elts),
-                  "tuple assignment " + _u(s), s)
-            for t, v in zip(tg.elts, s.value.elts):
-                _need(isinstance(t, ast.Name) and isinstance(v, ast.Subscript)
-                      and _u(v.value) == self.fdict and isinstance(v.slice, ast.Name)
-                      and v.slice.id in self.f, "function lookup " + _u(s), s)
-                self.fvars[t.id] = v.slice.id
-            return self.stmts(rest)
-        _need(isinstance(tg, ast.Name), "assignment target " + _u(s), s)
-        v = self.expr(s.value)
-        self.locals.add(tg.id)
-        return "(let %s := %s in %s)" % (tg.id, v, self.stmts(rest))
-
-
-def _params(fn):
-    a = fn.args
-    _need(not (a.vararg or a.kwarg or a.kwonlyargs or a.posonlyargs), "signature of " + fn.name, fn)
-    names = [x.arg for x in a.args]
-    defaults = [None] * (len(names) - len(a.defaults)) + list(a.defaults)
-    return names, dict(zip(names, defaults))
-
-
-def gen_helpers(funcs):
-    out = []
-    fn = funcs["_percentage_error"]
-    names, _ = _params(fn)
-    _need(names == ["y_true", "y_pred", "symmetric"], "_percentage_error signature", fn)
-    h = Helper(fn, ["y_true", "y_pred"], ["symmetric"], [])
-    out.append("Definition gen_percentage_error (y_true y_pred : Q) (symmetric : bool) : Q :=\n  %s."
-               % h.stmts(_strip_doc(fn)))
-    fn = funcs["_relative_error"]
-    names, _ = _params(fn)
-    _need(names == ["y_true", "y_pred", "y_pred_benchmark"], "_relative_error signature", fn)
-    h = Helper(fn, names, [], [])
-    out.append("Definition gen_relative_error (y_true y_pred y_pred_benchmark : Q) : Q :=\n  %s."
-               % h.stmts(_strip_doc(fn)))
-    fn = funcs["_asymmetric_error"]
-    names, _ = _params(fn)
-    _need(names == ["y_true", "y_pred", "asymmetric_threshold", "left_error_function",
-                    "right_error_function"], "_asymmetric_error signature", fn)
-    h = Helper(fn, ["y_true", "y_pred", "asymmetric_threshold"], [],
-               ["left_error_function", "right_error_function"])
-    out.append("Definition gen_asymmetric_error (y_true y_pred asymmetric_threshold : Q)\n"
-               "    (left_error_function right_error_function : pw0) : Q :=\n  %s."
-               % h.stmts(_strip_doc(fn)))
-    return out
-
-
-# ------------------------------------------------------------------------------------------------
-# part 2: structure of the 18 public functions
 
 COQ_NAME = {
     "mean_absolute_error": "MAE", "mean_squared_error": "MSE", "median_absolute_error": "MdAE",
@@ -205,311 +55,409 @@ COQ_NAME = {
 }
 ORDER = ["MAE", "MSE", "MdAE", "MdSE", "MAPE", "MdAPE", "MSPE", "MdSPE", "MRAE", "MdRAE", "GMRAE",
          "GMRSE", "MASE", "MdASE", "MSSE", "MdSSE", "MAsym", "RelLoss"]
-OPT = {"symmetric": "o_symmetric o", "square_root": "o_square_root o", "sp": "o_sp o",
-       "asymmetric_threshold": "o_thr o", "left_error_function": "o_left o",
-       "right_error_function": "o_right o"}
+LEAVES = ["_percentage_error", "_relative_error", "_asymmetric_error", "_weighted_geometric_mean"]
 
-# the multioutput tail every explicit function ends with
-TAIL = ("if isinstance(multioutput, str):\n"
-        "    if multioutput == 'raw_values':\n"
-        "        return output_errors\n"
-        "    elif multioutput == 'uniform_average':\n"
-        "        multioutput = None\n")
-TAIL_RET = "return np.average(output_errors, weights=multioutput)"
+# the names whose meaning the reading relies on must be bound by these imports
+IMPORTS = {
+    "np": ("numpy", None),
+    "gmean": ("scipy.stats", "gmean"),
+    "_weighted_percentile": ("sklearn.utils.stats", "_weighted_percentile"),
+    "check_consistent_length": ("sklearn.utils.validation", "check_consistent_length"),
+    "_check_reg_targets": ("sklearn.metrics._regression", "_check_reg_targets"),
+    "_mean_absolute_error": ("sklearn.metrics", "mean_absolute_error"),
+    "_mean_squared_error": ("sklearn.metrics", "mean_squared_error"),
+    "_median_absolute_error": ("sklearn.metrics", "median_absolute_error"),
+    "check_series": ("sktime.utils.validation.series", "check_series"),
+    "check_time_index": ("sktime.utils.validation.series", "check_time_index"),
+}
 
-
-def _kw(call):
-    d = {}
-    for k in call.keywords:
-        _need(k.arg is not None, "**kwargs in " + _u(call), call)
-        d[k.arg] = k.value
-    return d
-
-
-def _is_name(e, n):
-    return isinstance(e, ast.Name) and e.id == n
+YT, YP, YB, YTR = P("y_true"), P("y_pred"), P("y_pred_benchmark"), P("y_train")
+EPS_T = N("EPS")
 
 
-class Struct:
-    """Symbolic reading of one public function."""
+def _load(repo, rel):
+    with open(os.path.join(repo, rel)) as f:
+        return Module(ast.parse(f.read()))
 
-    def __init__(self, fn, funcs, done):
-        self.fn = fn
-        self.funcs = funcs
-        self.done = done            # already classified public functions: name -> dict
-        self.names, self.defaults = _params(fn)
-        self.env = {}               # local -> inlined ast expression
 
-    # ---- inlining of locals
-    def inline(self, e):
-        env = self.env
+def _functions_module(repo):
+    mod = _load(repo, SRC)
+    mod.require_imports(IMPORTS)
+    _need("EPS" in mod.consts and ast.dump(mod.consts["EPS"]) ==
+          ast.dump(ast.parse("np.finfo(np.float64).eps", mode="eval").body),
+          "EPS is not np.finfo(np.float64).eps")
+    missing = [f for f in list(COQ_NAME) + LEAVES if f not in mod.funcs]
+    _need(not missing, "functions missing from _functions.py: %s" % missing)
+    return mod
 
-        class T(ast.NodeTransformer):
-            def visit_Name(self, n):
-                if isinstance(n.ctx, ast.Load) and n.id in env:
-                    return env[n.id]
-                return n
-        import copy
-        return T().visit(copy.deepcopy(e))
 
-    # ---- point losses:  (base, pw) as Coq text
-    def point(self, e):
-        e = self.inline(e)
-        _need(isinstance(e, ast.Call), "point loss " + _u(e), e)
-        fn = _u(e.func)
-        if fn == "_asymmetric_error":
-            kw = _kw(e)
-            _need(len(e.args) == 2 and _is_name(e.args[0], "y_true") and _is_name(e.args[1], "y_pred")
-                  and sorted(kw) == ["asymmetric_threshold", "left_error_function",
-                                     "right_error_function"]
-                  and all(_is_name(v, k) for k, v in kw.items()),
-                  "arguments of " + _u(e), e)
-            return "BPlain", "(PAsym (o_thr o) (o_left o) (o_right o))"
-        _need(fn in ("np.abs", "np.square") and len(e.args) == 1 and not e.keywords,
-              "point loss " + _u(e), e)
-        pw = "(P0 PAbs)" if fn == "np.abs" else "(P0 PSq)"
-        return self.base(e.args[0]), pw
+def _ev_kw(mod):
+    keep = set(COQ_NAME) | set(LEAVES)
+    return {"inline": [f for f in mod.funcs if f not in keep], "opaque": keep}
 
+
+# ------------------------------------------------------------------------------------------------
+# part 1: the element-wise helpers -> Q expressions
+
+FTABLE = {(K("squared"), N("np.square")), (K("absolute"), N("np.abs"))}
+
+
+class Emit:
+    def __init__(self, q, b, f):
+        self.q, self.b, self.f = set(q), set(b), set(f)
+
+    def expr(self, t):
+        h = t[0]
+        if h == "K":
+            v = kval(t)
+            _need(isinstance(v, (int, float)) and not isinstance(v, bool) and float(v).is_integer(),
+                  "constant %r in a helper" % (v,))
+            return "(%d)" % int(v) if v < 0 else "%d" % int(v)
+        if h == "P":
+            _need(t[1] in self.q, "helper uses %s as a number" % t[1])
+            return t[1]
+        if t == EPS_T:
+            return "EPS"
+        if h == "U" and t[1] == "-":
+            return "(- %s)" % self.expr(t[2])
+        if h == "B":
+            _need(t[1] in "+-*/", "operator %s in a helper" % t[1])
+            return "(%s %s %s)" % (self.expr(t[2]), t[1], self.expr(t[3]))
+        if h == "ITE":
+            return "(if %s then %s else %s)" % (self.cond(t[1]), self.expr(t[2]), self.expr(t[3]))
+        if h == "C":
+            f, a, kw = t[1], t[2], t[3]
+            _need(not kw, "keywords in " + show(t))
+            if f == N("np.abs") and len(a) == 1:
+                return "(Qabs %s)" % self.expr(a[0])
+            if f == N("np.square") and len(a) == 1:
+                x = self.expr(a[0])
+                return "(%s * %s)" % (x, x)
+            if f == N("np.maximum") and len(a) == 2:
+                return "(qmax %s %s)" % (self.expr(a[0]), self.expr(a[1]))
+            if f == N("np.minimum") and len(a) == 2:
+                return "(qmin %s %s)" % (self.expr(a[0]), self.expr(a[1]))
+            if f == N("np.where") and len(a) == 3:
+                return "(if %s then %s else %s)" % (self.cond(a[0]), self.expr(a[1]),
+                                                     self.expr(a[2]))
+            # functions[selector](x) with the table {'squared': np.square, 'absolute': np.abs}
+            if f[0] == "SUB" and f[1][0] == "D" and set(f[1][1]) == FTABLE and len(f[1][1]) == 2 \
+                    and f[2][0] == "P" and f[2][1] in self.f and len(a) == 1:
+                return "(pwf0 %s %s)" % (f[2][1], self.expr(a[0]))
+        raise Unsupported("helper expression " + show(t))
+
+    def cond(self, c):
+        h = c[0]
+        if h == "P":
+            _need(c[1] in self.b, "helper branches on " + c[1])
+            return c[1]
+        if h == "NOT":
+            return "(negb %s)" % self.cond(c[1])
+        if h == "CMP" and c[1] == "<":
+            return "(qltb %s %s)" % (self.expr(c[2]), self.expr(c[3]))
+        if h == "CMP" and c[1] == "<=":
+            return "(Qle_bool %s %s)" % (self.expr(c[2]), self.expr(c[3]))
+        raise Unsupported("helper condition " + show(c))
+
+
+def gen_helpers(mod):
+    kw = _ev_kw(mod)
+    out = []
+
+    def helper(name, params):
+        fn = mod.funcs[name]
+        names, _, kwarg = signature(fn)
+        _need(names == params and kwarg is None, name + " signature", fn)
+        t = evaluate(mod, fn, {}, **kw)
+        _need(not contains(t, lambda x: x == ("RAISE",)), name + " raises")
+        return t
+    t = helper("_percentage_error", ["y_true", "y_pred", "symmetric"])
+    out.append("Definition gen_percentage_error (y_true y_pred : Q) (symmetric : bool) : Q :=\n  %s."
+               % Emit(["y_true", "y_pred"], ["symmetric"], []).expr(t))
+    t = helper("_relative_error", ["y_true", "y_pred", "y_pred_benchmark"])
+    out.append("Definition gen_relative_error (y_true y_pred y_pred_benchmark : Q) : Q :=\n  %s."
+               % Emit(["y_true", "y_pred", "y_pred_benchmark"], [], []).expr(t))
+    t = helper("_asymmetric_error", ["y_true", "y_pred", "asymmetric_threshold",
+                                     "left_error_function", "right_error_function"])
+    out.append("Definition gen_asymmetric_error (y_true y_pred asymmetric_threshold : Q)\n"
+               "    (left_error_function right_error_function : pw0) : Q :=\n  %s."
+               % Emit(["y_true", "y_pred", "asymmetric_threshold"], [],
+                      ["left_error_function", "right_error_function"]).expr(t))
+    # _weighted_geometric_mean must be exp(np.average(log x, weights=w, axis=axis)): np.average
+    # applies 1-D weights along `axis` (its documented meaning, which is the model's weighted
+    # geometric mean).  Anything else - in particular a hand-written `w * np.log(x)` product, whose
+    # broadcasting is not modelled (the repaired F-C06-6) - is refused.
+    t = helper("_weighted_geometric_mean", ["x", "sample_weight", "axis"])
+    want = call(N("np.exp"), (call(N("np.average"), (call(N("np.log"), (P("x"),)),),
+                                   [("weights", P("sample_weight")), ("axis", P("axis"))]),))
+    _need(t == want, "_weighted_geometric_mean computes %s (expected exp of np.average of logs "
+          "along `axis`)" % show(t))
+    return out
+
+
+# ------------------------------------------------------------------------------------------------
+# part 2: structure of the 18 public functions
+
+HW_MODES = [NONE, ARR("horizon_weight")]
+MO_MODES = [K("raw_values"), K("uniform_average"), ARR("multioutput")]
+
+
+def _is_ite(x):
+    return x[0] in ("ITE", "RAISE")
+
+
+class Reader:
+    def __init__(self, mod, fname, done):
+        self.mod, self.fname, self.done = mod, fname, done
+        self.fn = mod.funcs[fname]
+        self.names, self.defaults, kwarg = signature(self.fn)
+        _need(kwarg is None and self.names[:2] == ["y_true", "y_pred"], "signature of " + fname,
+              self.fn)
+        self.term = evaluate(mod, self.fn, {}, **_ev_kw(mod))
+        self.has_sq = "square_root" in self.names
+
+    def mode(self, hw, mo, sq=False):
+        m = {"horizon_weight": hw, "multioutput": mo}
+        if self.has_sq:
+            m["square_root"] = K(bool(sq))
+        t = strip_raise(subst(self.term, m))
+        _need(not contains(t, _is_ite), "%s: the value for horizon_weight=%s, multioutput=%s still "
+              "depends on a condition: %s" % (self.fname, show(hw), show(mo), show(t)[:300]))
+        return t
+
+    def sq_modes(self):
+        return [False, True] if self.has_sq else [False]
+
+    # ---- pieces
     def base(self, x):
-        if isinstance(x, ast.BinOp) and isinstance(x.op, ast.Sub):
+        if x in (("B", "-", YT, YP), ("B", "-", YP, YT)):
             # |.| and (.)^2 are even: y_pred - y_true and y_true - y_pred are the same loss
-            l, r = _u(x.left), _u(x.right)
-            _need({l, r} == {"y_true", "y_pred"}, "error term " + _u(x), x)
             return "BPlain"
-        _need(isinstance(x, ast.Call), "error term " + _u(x), x)
-        fn = _u(x.func)
-        if fn == "_percentage_error":
-            kw = _kw(x)
-            _need(len(x.args) == 2 and _is_name(x.args[0], "y_true") and _is_name(x.args[1], "y_pred")
-                  and list(kw) == ["symmetric"] and _is_name(kw["symmetric"], "symmetric"),
-                  "arguments of " + _u(x), x)
+        if x[0] == "C" and x[1] == N("_percentage_error"):
+            _need(not x[2] and kwd(x) == {"y_true": YT, "y_pred": YP, "symmetric": P("symmetric")}
+                  and "symmetric" in self.names, "arguments of " + show(x))
             return "(BPct (o_symmetric o))"
-        if fn == "_relative_error":
-            _need(not x.keywords and [_u(a) for a in x.args] == ["y_true", "y_pred",
-                                                                 "y_pred_benchmark"],
-                  "arguments of " + _u(x), x)
+        if x[0] == "C" and x[1] == N("_relative_error"):
+            _need(not x[2] and kwd(x) == {"y_true": YT, "y_pred": YP, "y_pred_benchmark": YB}
+                  and "y_pred_benchmark" in self.names, "arguments of " + show(x))
             return "BRel"
-        raise Unsupported("error term %s at line %d" % (_u(x), x.lineno))
+        raise Unsupported("%s: error term %s" % (self.fname, show(x)))
 
-    # ---- aggregates over the horizon: returns (point expr, aggregate) for the given weighting
-    def agg_unweighted(self, e):
-        e = self.inline(e)
-        _need(isinstance(e, ast.Call), "aggregate " + _u(e), e)
-        fn, kw = _u(e.func), _kw(e)
-        _need(len(e.args) == 1, "aggregate " + _u(e), e)
-        if fn in ("np.mean", "np.median", "gmean"):
-            _need(list(kw) == ["axis"] and _u(kw["axis"]) == "0", "axis of " + _u(e), e)
-            a = {"np.mean": "Mean", "np.median": "Median", "gmean": "GMean"}[fn]
-            return e.args[0], a
-        raise Unsupported("unweighted aggregate %s at line %d" % (_u(e), e.lineno))
+    def point(self, x):
+        if x[0] == "C" and x[1] == N("_asymmetric_error"):
+            want = {"y_true": YT, "y_pred": YP}
+            for o in ("asymmetric_threshold", "left_error_function", "right_error_function"):
+                _need(o in self.names, "%s has no option %s" % (self.fname, o))
+                want[o] = P(o)
+            _need(not x[2] and kwd(x) == want, "arguments of " + show(x))
+            return "BPlain", "(PAsym (o_thr o) (o_left o) (o_right o))"
+        if x[0] == "C" and x[1] == N("np.abs") and len(x[2]) == 1 and not x[3]:
+            return self.base(x[2][0]), "(P0 PAbs)"
+        if x[0] == "C" and x[1] == N("np.square") and len(x[2]) == 1 and not x[3]:
+            return self.base(x[2][0]), "(P0 PSq)"
+        if x[0] == "B" and ((x[1] == "**" and x[3] in (K(2), K(2.0))) or
+                            (x[1] == "*" and x[2] == x[3])):
+            return self.base(x[2]), "(P0 PSq)"
+        raise Unsupported("%s: point loss %s" % (self.fname, show(x)))
 
-    def agg_weighted(self, e):
-        e = self.inline(e)
-        _need(isinstance(e, ast.Call), "aggregate " + _u(e), e)
-        fn, kw = _u(e.func), _kw(e)
-        _need(len(e.args) == 1, "aggregate " + _u(e), e)
-        if fn == "np.average":
-            _need(sorted(kw) == ["axis", "weights"] and _u(kw["axis"]) == "0"
-                  and _is_name(kw["weights"], "horizon_weight"), "arguments of " + _u(e), e)
-            return e.args[0], "Mean"
-        if fn == "_weighted_percentile":
-            _need(list(kw) == ["sample_weight"] and _is_name(kw["sample_weight"], "horizon_weight"),
-                  "arguments of " + _u(e), e)
-            return e.args[0], "Median"
-        if fn == "_weighted_geometric_mean":
-            _need(sorted(kw) == ["axis", "sample_weight"] and _u(kw["axis"]) == "0"
-                  and _is_name(kw["sample_weight"], "horizon_weight"), "arguments of " + _u(e), e)
-            return e.args[0], "GMean"
-        raise Unsupported("weighted aggregate %s at line %d" % (_u(e), e.lineno))
+    @staticmethod
+    def _axis0(t, npos):
+        """the single data argument of an aggregation along axis 0."""
+        a, d = t[2], kwd(t)
+        if len(a) == npos + 1 and "axis" not in d:
+            ax = a[npos]
+        else:
+            ax = d.pop("axis", None)
+        _need(len(a) >= 1 and ax in (K(0),), "axis of " + show(t))
+        return a[0], d
+
+    def agg_unweighted(self, t):
+        table = {N("np.mean"): "Mean", N("np.median"): "Median", N("gmean"): "GMean"}
+        _need(t[0] == "C" and t[1] in table, "%s: unweighted aggregate %s" % (self.fname, show(t)))
+        x, d = self._axis0(t, 1)
+        _need(not d and len(t[2]) <= 2, "arguments of " + show(t))
+        return x, table[t[1]]
+
+    def agg_weighted(self, t):
+        hw = ARR("horizon_weight")
+        _need(t[0] == "C", "%s: weighted aggregate %s" % (self.fname, show(t)))
+        if t[1] == N("np.average"):
+            x, d = self._axis0(t, 1)
+            _need(d == {"weights": hw} and len(t[2]) == 1, "arguments of " + show(t))
+            return x, "Mean"
+        if t[1] == N("_weighted_percentile"):
+            # sklearn: _weighted_percentile(array, sample_weight, percentile=50), along axis 0
+            a, d = list(t[2]), kwd(t)
+            for n_, v in zip(["array", "sample_weight", "percentile"], a):
+                _need(n_ not in d, "arguments of " + show(t))
+                d[n_] = v
+            _need(set(d) <= {"array", "sample_weight", "percentile"} and d.get("sample_weight") == hw
+                  and d.get("percentile", K(50)) in (K(50), K(50.0)) and "array" in d,
+                  "arguments of " + show(t))
+            return d["array"], "Median"
+        if t[1] == N("_weighted_geometric_mean"):
+            d = kwd(t)
+            _need(not t[2] and set(d) == {"x", "sample_weight", "axis"} and d["sample_weight"] == hw
+                  and d["axis"] == K(0), "arguments of " + show(t))
+            return d["x"], "GMean"
+        raise Unsupported("%s: weighted aggregate %s" % (self.fname, show(t)))
 
     def gm_floor(self, x):
-        """np.where(R == 0.0, EPS, R) -> R"""
-        _need(isinstance(x, ast.Call) and _u(x.func) == "np.where" and len(x.args) == 3
-              and not x.keywords, "geometric mean argument " + _u(x), x)
-        c, a, b = x.args
-        _need(isinstance(c, ast.Compare) and len(c.ops) == 1 and isinstance(c.ops[0], ast.Eq)
-              and isinstance(c.comparators[0], ast.Constant) and c.comparators[0].value == 0
-              and _u(a) == "EPS" and ast.dump(c.left) == ast.dump(b),
-              "zero replacement " + _u(x), x)
+        """np.where(R == 0, EPS, R) -> R"""
+        _need(x[0] == "C" and x[1] == N("np.where") and len(x[2]) == 3 and not x[3],
+              "%s: geometric mean argument %s" % (self.fname, show(x)))
+        c, a, b = x[2]
+        _need(a == EPS_T and c in (("CMP", "==", b, K(0.0)), ("CMP", "==", b, K(0)),
+                                   ("CMP", "==", K(0.0), b), ("CMP", "==", K(0), b)),
+              "%s: zero replacement %s" % (self.fname, show(x)))
         return b
 
-    def explicit(self, body):
-        """the functions that compute output_errors themselves."""
-        i = 0
-        n_checks = 0
-        both = None     # (unweighted expr, weighted expr) of output_errors
-        while i < len(body):
-            s = body[i]
-            src = _u(s)
-            if src in ("_, y_true, y_pred, multioutput = _check_reg_targets(y_true, y_pred, multioutput)",
-                       "_, y_true, y_pred_benchmark, multioutput = _check_reg_targets(y_true, "
-                       "y_pred_benchmark, multioutput)"):
-                n_checks += 1
-            elif src == "if horizon_weight is not None:\n    check_consistent_length(y_true, horizon_weight)":
-                pass
-            elif isinstance(s, ast.Assign) and len(s.targets) == 1 and \
-                    isinstance(s.targets[0], ast.Name) and s.targets[0].id != "output_errors":
-                _need(s.targets[0].id not in self.names, "parameter reassigned: " + src, s)
-                self.env[s.targets[0].id] = self.inline(s.value)
-            else:
-                break
-            i += 1
-        _need(n_checks >= 1, "no _check_reg_targets in " + self.fn.name, self.fn)
-        s = body[i]
-        if isinstance(s, ast.Assign) and _u(s.targets[0]) == "output_errors":
-            x, a = self.agg_weighted(s.value)       # np.average(weights=None) is the plain mean
-            _need(a == "Mean", "single-statement aggregate must be np.average", s)
-            both = (x, x, a)
-        else:
-            _need(isinstance(s, ast.If) and _u(s.test) == "horizon_weight is None"
-                  and len(s.body) == 1 and len(s.orelse) == 2
-                  and _u(s.orelse[0]) == "check_consistent_length(y_true, horizon_weight)",
-                  "aggregation statement " + _u(s), s)
-            s0, s1 = s.body[0], s.orelse[1]
-            _need(all(isinstance(t, ast.Assign) and _u(t.targets[0]) == "output_errors"
-                      for t in (s0, s1)), "aggregation statement " + _u(s), s)
-            x0, a0 = self.agg_unweighted(s0.value)
-            x1, a1 = self.agg_weighted(s1.value)
-            _need(a0 == a1, "weighted and unweighted aggregates differ (%s / %s)" % (a0, a1), s)
-            both = (x0, x1, a0)
-        i += 1
-        x0, x1, a = both
-        if a == "GMean":
-            x0, x1 = self.gm_floor(self.inline(x0)), self.gm_floor(self.inline(x1))
-        p0, p1 = self.point(x0), self.point(x1)
-        _need(p0 == p1, "weighted and unweighted branches use different losses: %s / %s"
-              % (_u(x0), _u(x1)), s)
-        rooted = "false"
-        if i < len(body) and _u(body[i]) == "if square_root:\n    output_errors = np.sqrt(output_errors)":
-            _need("square_root" in self.names, "square_root is not a parameter", body[i])
-            rooted = "(o_square_root o)"
-            i += 1
-        _need(i + 2 == len(body) and _u(body[i]) + "\n" == TAIL and _u(body[i + 1]) == TAIL_RET,
-              "multioutput tail of " + self.fn.name, body[min(i, len(body) - 1)])
-        return {"fam": "FSimple %s %s %s" % (p0[0], p0[1], a), "rooted": rooted,
-                "simple": (p0[0], p0[1], a)}
-
-    def sklearn_wrapper(self, body):
-        _need(len(body) in (1, 2), "body of " + self.fn.name, self.fn)
-        rooted = "false"
-        if len(body) == 2:
-            _need(_u(body[0]) == "squared = not square_root", "statement " + _u(body[0]), body[0])
-        r = body[-1]
-        _need(isinstance(r, ast.Return) and isinstance(r.value, ast.Call), "return " + _u(r), r)
-        c = r.value
-        fn, kw = _u(c.func), _kw(c)
-        table = {"_mean_absolute_error": ("(P0 PAbs)", "Mean"), "_mean_squared_error": ("(P0 PSq)", "Mean"),
-                 "_median_absolute_error": ("(P0 PAbs)", "Median")}
-        _need(fn in table and [_u(a) for a in c.args] == ["y_true", "y_pred"], "call " + _u(c), c)
-        want = {"sample_weight": "horizon_weight", "multioutput": "multioutput"}
-        if fn == "_mean_squared_error":
-            _need(len(body) == 2, "mean_squared_error without `squared`", c)
-            want["squared"] = "squared"
-            rooted = "(o_square_root o)"
-        else:
-            _need(len(body) == 1, "unexpected statement in " + self.fn.name, c)
-        _need({k: _u(v) for k, v in kw.items()} == want, "keywords of " + _u(c), c)
-        # the imported names must be sklearn's
-        pw, a = table[fn]
-        return {"fam": "FSimple BPlain %s %s" % (pw, a), "rooted": rooted,
+    # ---- the three families
+    def sklearn_wrapper(self, f):
+        table = {N("_mean_absolute_error"): ("(P0 PAbs)", "Mean", False),
+                 N("_mean_squared_error"): ("(P0 PSq)", "Mean", True),
+                 N("_median_absolute_error"): ("(P0 PAbs)", "Median", False)}
+        pw, a, rootable = table[f]
+        _need(self.has_sq == rootable, "%s: square_root option" % self.fname)
+        for hw in HW_MODES:
+            for mo in MO_MODES:
+                for sq in self.sq_modes():
+                    t = self.mode(hw, mo, sq)
+                    _need(t[0] == "C" and t[1] == f, "%s: %s" % (self.fname, show(t)))
+                    d = kwd(t)
+                    for n_, v in zip(["y_true", "y_pred"], t[2]):
+                        _need(n_ not in d, "arguments of " + show(t))
+                        d[n_] = v
+                    want = {"y_true": YT, "y_pred": YP}
+                    _need(len(t[2]) <= 2 and {k: d.pop(k, None) for k in want} == want
+                          and d.pop("sample_weight", NONE) == hw
+                          and d.pop("multioutput", K("uniform_average")) == mo,
+                          "arguments of " + show(t))
+                    if rootable:        # sklearn: squared=True -> MSE, False -> RMSE
+                        _need(d.pop("squared", TRUE) == K(not sq), "`squared` in " + show(t))
+                    _need(not d, "arguments of " + show(t))
+        return {"fam": "FSimple BPlain %s %s" % (pw, a),
+                "rooted": "(o_square_root o)" if rootable else "false",
                 "simple": ("BPlain", pw, a)}
 
-    def scaled(self, body):
-        srcs = [_u(s) for s in body]
-        try:
-            i = srcs.index("y_pred_naive = y_train[:-sp]")
-        except ValueError:
-            raise Unsupported("no seasonal naive forecast in " + self.fn.name)
-        _need(srcs[i - 1] == "y_train = np.asarray(y_train)", "statement before naive forecast",
-              body[i])
-        s1, s2 = body[i + 1], body[i + 2]
-        for s in (s1, s2):
-            _need(isinstance(s, ast.Assign) and isinstance(s.targets[0], ast.Name)
-                  and isinstance(s.value, ast.Call), "statement " + _u(s), s)
-        den, num = s1.targets[0].id, s2.targets[0].id
-        c1, c2 = s1.value, s2.value
-        inner = _u(c1.func)
-        _need(inner == _u(c2.func) and inner in self.done and self.done[inner].get("simple")
-              and self.done[inner]["simple"][0] == "BPlain", "inner metric " + inner, s1)
-        _need([_u(a) for a in c1.args] == ["y_train[sp:]", "y_pred_naive"]
-              and {k: _u(v) for k, v in _kw(c1).items()} == {"multioutput": "multioutput"},
-              "naive error call " + _u(c1), c1)
-        _need([_u(a) for a in c2.args] == ["y_true", "y_pred"]
-              and {k: _u(v) for k, v in _kw(c2).items()} ==
-              {"horizon_weight": "horizon_weight", "multioutput": "multioutput"},
-              "forecast error call " + _u(c2), c2)
-        ratio = "%s / np.maximum(%s, EPS)" % (num, den)
-        rest = srcs[i + 3:]
-        if rest == ["return " + ratio]:
-            rooted = "false"
-        else:
-            _need(rest == ["if square_root:\n    loss = np.sqrt(%s)\nelse:\n    loss = %s" % (ratio, ratio),
-                           "return loss"], "result of " + self.fn.name, body[i + 3])
-            rooted = "(o_square_root o)"
-        pw, a = self.done[inner]["simple"][1], self.done[inner]["simple"][2]
-        _need(pw in ("(P0 PAbs)", "(P0 PSq)"), "inner loss " + pw, s1)
-        # the part before: input checks only (no arithmetic on the data)
-        for s in body[:i - 1]:
-            self.check_only(s)
-        return {"fam": "FScaled %s %s (o_sp o)" % (pw[4:-1], a), "rooted": rooted}
+    def simple(self):
+        t0 = self.mode(NONE, MO_MODES[0])
+        if t0[0] == "C" and t0[1] in (N("_mean_absolute_error"), N("_mean_squared_error"),
+                                      N("_median_absolute_error")):
+            return self.sklearn_wrapper(t0[1])
+        raw = {}
+        for hw in HW_MODES:
+            for sq in self.sq_modes():
+                r = self.mode(hw, MO_MODES[0], sq)
+                _need(self.mode(hw, MO_MODES[1], sq) == call(N("np.mean"), (r,)),
+                      "%s: uniform_average is not the mean of the raw values" % self.fname)
+                _need(self.mode(hw, MO_MODES[2], sq) ==
+                      call(N("np.average"), (r,), [("weights", MO_MODES[2])]),
+                      "%s: multioutput weights are not np.average(raw values, weights=)" % self.fname)
+                raw[(hw, sq)] = r
+            if self.has_sq:
+                _need(raw[(hw, True)] == call(N("np.sqrt"), (raw[(hw, False)],)),
+                      "%s: square_root=True is not the square root of the per-output values"
+                      % self.fname)
+        x0, a0 = self.agg_unweighted(raw[(HW_MODES[0], False)])
+        x1, a1 = self.agg_weighted(raw[(HW_MODES[1], False)])
+        _need(a0 == a1, "%s: weighted and unweighted aggregates differ (%s / %s)"
+              % (self.fname, a0, a1))
+        if a0 == "GMean":
+            x0, x1 = self.gm_floor(x0), self.gm_floor(x1)
+        _need(x0 == x1, "%s: weighted and unweighted branches aggregate different losses: %s / %s"
+              % (self.fname, show(x0), show(x1)))
+        b, pw = self.point(x0)
+        return {"fam": "FSimple %s %s %s" % (b, pw, a0),
+                "rooted": "(o_square_root o)" if self.has_sq else "false", "simple": (b, pw, a0)}
 
-    def check_only(self, s):
-        """statements allowed before the arithmetic: validation that does not change values."""
-        src = _u(s)
-        ok = (
-            src == "_, y_true, y_pred, multioutput = _check_reg_targets(y_true, y_pred, multioutput)"
-            or src == "if horizon_weight is not None:\n    check_consistent_length(y_true, horizon_weight)"
-            or src == "y_train = check_series(y_train, enforce_univariate=False)"
-            or src == "if y_train.ndim == 1:\n    y_train = np.expand_dims(y_train, 1)"
-            or (isinstance(s, ast.If) and all(isinstance(b, (ast.Raise, ast.Expr, ast.If))
-                                              for b in ast.walk(s) if isinstance(b, ast.stmt)
-                                              and b is not s)
-                and not s.orelse))
-        _need(ok, "statement before the arithmetic: " + src.split("\n")[0], s)
+    @staticmethod
+    def _ratio(t):
+        """num / np.maximum(den, EPS)"""
+        _need(t[0] == "B" and t[1] == "/", "ratio " + show(t))
+        m = t[3]
+        _need(m[0] == "C" and m[1] == N("np.maximum") and len(m[2]) == 2 and not m[3]
+              and EPS_T in m[2], "clamped denominator " + show(m))
+        den = m[2][0] if m[2][1] == EPS_T else m[2][1]
+        return t[2], den
 
-    def relloss(self, body):
-        srcs = [_u(s) for s in body]
-        want = [
-            "_, y_true, y_pred, multioutput = _check_reg_targets(y_true, y_pred, multioutput)",
-            "if horizon_weight is not None:\n    check_consistent_length(y_true, horizon_weight)",
-            "loss_preds = relative_loss_function(y_true, y_pred, horizon_weight=horizon_weight, "
-            "multioutput=multioutput)",
-            "loss_benchmark = relative_loss_function(y_true, y_pred_benchmark, "
-            "horizon_weight=horizon_weight, multioutput=multioutput)",
-            "return np.divide(loss_preds, np.maximum(loss_benchmark, EPS))"]
-        _need(srcs == want, "body of relative_loss", self.fn)
+    def scaled(self):
+        _need("y_train" in self.names and "sp" in self.names, "signature of " + self.fname, self.fn)
+        sp = P("sp")
+        tail = ("SUB", YTR, ("SL", sp, NONE, NONE))
+        lagged = ("SUB", YTR, ("SL", NONE, ("U", "-", sp), NONE))
+        inner = None
+        for hw in HW_MODES:
+            for mo in MO_MODES:
+                for sq in self.sq_modes():
+                    t = self.mode(hw, mo, sq)
+                    if sq:
+                        _need(t[0] == "C" and t[1] == N("np.sqrt") and len(t[2]) == 1 and not t[3],
+                              "%s: square_root=True gives %s" % (self.fname, show(t)))
+                        t = t[2][0]
+                    num, den = self._ratio(t)
+                    for x in (num, den):
+                        _need(x[0] == "C" and x[1][0] == "N" and x[1][1] in self.done
+                              and not x[2], "%s: inner metric %s" % (self.fname, show(x)))
+                    f = num[1][1]
+                    _need(den[1][1] == f and (inner in (None, f)), "%s: inner metrics differ"
+                          % self.fname)
+                    inner = f
+                    dn, dd = kwd(num), kwd(den)
+                    if "square_root" in dn:
+                        _need(dn.pop("square_root") == FALSE and dd.pop("square_root") == FALSE,
+                              "%s: inner metric called with a square root" % self.fname)
+                    _need(dn == {"y_true": YT, "y_pred": YP, "horizon_weight": hw,
+                                 "multioutput": mo}, "forecast error call " + show(num))
+                    _need(dd == {"y_true": tail, "y_pred": lagged, "horizon_weight": NONE,
+                                 "multioutput": mo}, "naive error call " + show(den))
+        s = self.done[inner].get("simple")
+        _need(s and s[0] == "BPlain" and s[1] in ("(P0 PAbs)", "(P0 PSq)"),
+              "%s: inner metric %s" % (self.fname, inner))
+        return {"fam": "FScaled %s %s (o_sp o)" % (s[1][4:-1], s[2]),
+                "rooted": "(o_square_root o)" if self.has_sq else "false"}
+
+    def relloss(self):
+        _need("relative_loss_function" in self.names and "y_pred_benchmark" in self.names
+              and not self.has_sq, "signature of relative_loss", self.fn)
+        lf = P("relative_loss_function")
+        for hw in HW_MODES:
+            for mo in MO_MODES:
+                num, den = self._ratio(self.mode(hw, mo))
+                for x, pred in ((num, YP), (den, YB)):
+                    _need(x[0] == "C" and x[1] == lf, "relative_loss: %s" % show(x))
+                    d = kwd(x)
+                    for n_, v in zip(["y_true", "y_pred", "horizon_weight", "multioutput"], x[2]):
+                        _need(n_ not in d, "arguments of " + show(x))
+                        d[n_] = v
+                    _need(d == {"y_true": YT, "y_pred": pred, "horizon_weight": hw,
+                                "multioutput": mo}, "arguments of " + show(x))
         return {"fam": "FRelLoss (o_rl_k o) (o_rl_a o)", "rooted": "false"}
 
     def read(self):
-        body = _strip_doc(self.fn)
-        name = self.fn.name
-        if "scaled" in name:
-            return self.scaled(body)
-        if name == "relative_loss":
-            return self.relloss(body)
-        if len(body) <= 2:
-            return self.sklearn_wrapper(body)
-        return self.explicit(body)
+        if "y_train" in self.names:
+            return self.scaled()
+        if self.fname == "relative_loss":
+            return self.relloss()
+        return self.simple()
 
 
-def _default_opts(funcs):
+def _default_opts(mod):
     """gen_defaults: the option defaults of each function as an `opts` record."""
     rows = []
     for fname, cn in sorted(COQ_NAME.items(), key=lambda kv: ORDER.index(kv[1])):
-        _, d = _params(funcs[fname])
+        fn = mod.funcs[fname]
+        _, d, _ = signature(fn)
 
-        def const(nm, fallback):
+        def const(nm):
             if nm not in d:
-                return fallback
-            _need(d[nm] is not None, "%s of %s has no default" % (nm, fname), funcs[fname])
+                return None
+            _need(d[nm] is not None, "%s of %s has no default" % (nm, fname), fn)
             return d[nm]
-        sym = const("symmetric", None)
-        rt = const("square_root", None)
-        sp = const("sp", None)
-        thr = const("asymmetric_threshold", None)
-        lf = const("left_error_function", None)
-        rf = const("right_error_function", None)
-        rl = const("relative_loss_function", None)
+        sym, rt, sp, thr = const("symmetric"), const("square_root"), const("sp"), \
+            const("asymmetric_threshold")
+        lf, rf, rl = const("left_error_function"), const("right_error_function"), \
+            const("relative_loss_function")
 
         def cb(x, dflt):
             if x is None:
@@ -527,13 +475,12 @@ def _default_opts(funcs):
             _need(isinstance(sp, ast.Constant) and isinstance(sp.value, int) and sp.value >= 1,
                   "sp default", sp)
         if thr is not None:
-            _need(isinstance(thr, ast.Constant) and float(thr.value).is_integer(), "threshold", thr)
+            _need(isinstance(thr, ast.Constant) and isinstance(thr.value, (int, float))
+                  and float(thr.value).is_integer(), "threshold", thr)
         rlk, rla = "PAbs", "Mean"
         if rl is not None:
-            _need(isinstance(rl, ast.Name) and rl.id in ("mean_absolute_error", "mean_squared_error",
-                                                         "median_absolute_error",
-                                                         "median_squared_error"),
-                  "relative_loss_function default", rl)
+            _need(isinstance(rl, ast.Name) and rl.id in RL_FUNCS, "relative_loss_function default",
+                  rl)
             rlk = "PAbs" if "absolute" in rl.id else "PSq"
             rla = "Median" if rl.id.startswith("median") else "Mean"
         rows.append("  | %s => mkopts %s %s %d%%nat (%d) %s %s %s %s" % (
@@ -542,70 +489,15 @@ def _default_opts(funcs):
     return rows
 
 
-def _check_module(mod):
-    """module-level facts the translation relies on."""
-    want = {
-        "EPS = np.finfo(np.float64).eps": False,
-        "from sklearn.metrics import mean_absolute_error as _mean_absolute_error": False,
-        "from sklearn.metrics import mean_squared_error as _mean_squared_error": False,
-        "from sklearn.metrics import median_absolute_error as _median_absolute_error": False,
-        "from sklearn.utils.stats import _weighted_percentile": False,
-        "from scipy.stats import gmean": False,
-        "import numpy as np": False,
-    }
-    for n in mod.body:
-        s = _u(n)
-        if s in want:
-            want[s] = True
-    missing = [k for k, v in want.items() if not v]
-    _need(not missing, "module-level definitions changed: missing %s" % missing)
-    names = {}
-    for n in mod.body:
-        for t in (n.targets if isinstance(n, ast.Assign) else []):
-            if isinstance(t, ast.Name):
-                names[t.id] = names.get(t.id, 0) + 1
-        if isinstance(n, ast.FunctionDef):
-            names[n.name] = names.get(n.name, 0) + 1
-    dup = [k for k, v in names.items() if v > 1]
-    _need(not dup, "names bound more than once at module level: %s" % dup)
-
-
-def _gm_helper(funcs):
-    """_weighted_geometric_mean must be exp(np.average(log x, weights=w, axis=axis)): np.average
-    applies 1-D weights along `axis` (its documented meaning, which is what the model's weighted
-    geometric mean is).  Anything else - in particular the 0.6.0 body
-    exp(sum(w * log x, axis) / sum(w, axis)), whose `w * log x` broadcasts the (fh,) weights along
-    the OUTPUT axis of the (fh, n_outputs) errors - is refused: numpy broadcasting is not
-    modelled."""
-    fn = funcs["_weighted_geometric_mean"]
-    names, _ = _params(fn)
-    _need(names == ["x", "sample_weight", "axis"], "_weighted_geometric_mean signature", fn)
-    body = [_u(s) for s in _strip_doc(fn)]
-    _need(len(body) == 2 and body[0] == "check_consistent_length(x, sample_weight)"
-          and body[1] == "return np.exp(np.average(np.log(x), weights=sample_weight, axis=axis))",
-          "_weighted_geometric_mean body (expected exp of np.average of logs along `axis`)", fn)
-
-
 def translate(repo):
-    path = os.path.join(repo, SRC)
-    with open(path) as f:
-        mod = ast.parse(f.read())
-    _check_module(mod)
-    funcs = {n.name: n for n in mod.body if isinstance(n, ast.FunctionDef)}
-    missing = [f for f in list(COQ_NAME) + ["_percentage_error", "_relative_error",
-                                            "_asymmetric_error", "_weighted_geometric_mean"]
-               if f not in funcs]
-    _need(not missing, "functions missing from _functions.py: %s" % missing)
-    _gm_helper(funcs)
-    helpers = gen_helpers(funcs)
+    mod = _functions_module(repo)
+    helpers = gen_helpers(mod)
     done = {}
     # simple functions first: the scaled ones refer to them
-    order = [f for f in COQ_NAME if "scaled" not in f] + [f for f in COQ_NAME if "scaled" in f]
+    order = [f for f in COQ_NAME if "y_train" not in signature(mod.funcs[f])[0]] + \
+            [f for f in COQ_NAME if "y_train" in signature(mod.funcs[f])[0]]
     for fname in order:
-        st = Struct(funcs[fname], funcs, done)
-        names = st.names
-        _need(names[:2] == ["y_true", "y_pred"], "signature of " + fname, funcs[fname])
-        done[fname] = st.read()
+        done[fname] = Reader(mod, fname, done).read()
     rows = []
     for cn in ORDER:
         fname = [f for f, c in COQ_NAME.items() if c == cn][0]
@@ -620,7 +512,7 @@ def translate(repo):
     text += ["", "Definition gen_struct (n : mname) (o : opts) : metric :=", "  match n with"]
     text += rows + ["  end.", ""]
     text += ["Definition gen_defaults (n : mname) : opts :=", "  match n with"]
-    text += _default_opts(funcs) + ["  end.", ""]
+    text += _default_opts(mod) + ["  end.", ""]
     text += ["(* which python function each row above was read from *)",
              "Definition gen_fname (n : mname) : string :=", "  match n with"]
     text += ['  | %s => "%s"' % (cn, [f for f, c in COQ_NAME.items() if c == cn][0]) for cn in ORDER]
@@ -628,82 +520,27 @@ def translate(repo):
     return {"C06/Gen.v": "\n".join(text)}
 
 
-if __name__ == "__main__":
-    import sys
-    print(translate(sys.argv[1] if len(sys.argv) > 1 else "/repo")["C06/Gen.v"])
-
-
 # ------------------------------------------------------------------------------------------------
 # part 3: the metric classes as wrappers (facts for coq/C06/Wrap.v)
 
 CLS_SRC = "sktime/performance_metrics/forecasting/_classes.py"
-BASE_PARAMS = ["func", "name", "greater_is_better"]
+FUNC_MODULE = "sktime.performance_metrics.forecasting._functions"
+BASE_ATTRS = ("_func", "name", "greater_is_better")
 SERIES = ("y_train", "y_pred_benchmark")
 NOT_OPTIONS = ("y_true", "y_pred", "horizon_weight", "multioutput") + SERIES
+RL_FUNCS = ("mean_absolute_error", "mean_squared_error", "median_absolute_error",
+            "median_squared_error")
 
 
 def func_sigs(repo):
-    with open(os.path.join(repo, SRC)) as f:
-        mod = ast.parse(f.read())
+    mod = _load(repo, SRC)
     sigs = {}
-    for n in mod.body:
-        if isinstance(n, ast.FunctionDef) and n.name in COQ_NAME:
-            names, d = _params(n)
-            sigs[n.name] = {"opts": [p for p in names if p not in NOT_OPTIONS],
-                            "series": [p for p in names if p in SERIES and d[p] is None]}
+    for name in COQ_NAME:
+        _need(name in mod.funcs, "function %s missing" % name)
+        names, d, _ = signature(mod.funcs[name])
+        sigs[name] = {"opts": [p for p in names if p not in NOT_OPTIONS],
+                      "series": [p for p in names if p in SERIES and d[p] is None]}
     return sigs
-
-
-def _methods(cls):
-    return {n.name: n for n in cls.body if isinstance(n, ast.FunctionDef)}
-
-
-def _read_call(fn):
-    """__call__: (accepts **kwargs?, [(keyword, attribute)]) from `return self._func(y_true, y_pred, ...)`."""
-    a = fn.args
-    _need([x.arg for x in a.args] == ["self", "y_true", "y_pred"] and not a.vararg
-          and not a.kwonlyargs and not a.defaults, "signature of __call__", fn)
-    kwargs = a.kwarg.arg if a.kwarg else None
-    body = _strip_doc(fn)
-    _need(len(body) == 1 and isinstance(body[0], ast.Return) and isinstance(body[0].value, ast.Call),
-          "body of __call__", fn)
-    c = body[0].value
-    _need(_u(c.func) == "self._func" and [_u(x) for x in c.args] == ["y_true", "y_pred"],
-          "call in __call__: " + _u(c), c)
-    fw, forwards_kwargs = [], False
-    for k in c.keywords:
-        if k.arg is None:
-            _need(kwargs is not None and _is_name(k.value, kwargs), "** in " + _u(c), c)
-            forwards_kwargs = True
-            continue
-        v = k.value
-        _need(isinstance(v, ast.Attribute) and _is_name(v.value, "self"), "keyword value " + _u(v), c)
-        fw.append((k.arg, v.attr))
-    _need((kwargs is None) == (not forwards_kwargs), "**kwargs accepted but not forwarded", fn)
-    return forwards_kwargs, fw
-
-
-def _read_base_init(fn):
-    """wrapper base __init__: params, {attribute: param}; must hand func/name/greater_is_better on."""
-    names, _ = _params(fn)
-    _need(names[:4] == ["self"] + BASE_PARAMS, "signature of " + fn.name, fn)
-    attrs = {}
-    saw_super = False
-    for s in _strip_doc(fn):
-        if isinstance(s, ast.Assign) and len(s.targets) == 1 and \
-                isinstance(s.targets[0], ast.Attribute) and _is_name(s.targets[0].value, "self") \
-                and isinstance(s.value, ast.Name) and s.value.id in names:
-            attrs[s.targets[0].attr] = s.value.id
-        elif _u(s) == "super().__init__(func=func, name=name, greater_is_better=greater_is_better)":
-            saw_super = True
-        else:
-            raise Unsupported("statement in wrapper __init__: " + _u(s))
-    _need(saw_super, "wrapper __init__ does not call super().__init__", fn)
-    return names[4:], attrs
-
-
-RL_FUNCS = ("mean_absolute_error", "mean_squared_error", "median_absolute_error",
-            "median_squared_error")
 
 
 def _ctor_default(cls, p, d, node):
@@ -723,79 +560,53 @@ def _ctor_default(cls, p, d, node):
     if isinstance(d, ast.Name) and d.id in RL_FUNCS:
         return "VLoss %s %s" % ("PAbs" if "absolute" in d.id else "PSq",
                                 "Median" if d.id.startswith("median") else "Mean")
-    raise Unsupported("default of %s(%s): %s" % (cls, p, _u(d)))
+    raise Unsupported("default of %s(%s): %s" % (cls, p, ast.unparse(d)))
 
 
 def class_facts(repo):
-    with open(os.path.join(repo, CLS_SRC)) as f:
-        mod = ast.parse(f.read())
-    classes = {n.name: n for n in mod.body if isinstance(n, ast.ClassDef)}
-    _need("_MetricFunctionWrapper" in classes, "_MetricFunctionWrapper missing")
-    root = classes["_MetricFunctionWrapper"]
-    rm = _methods(root)
-    _need("__init__" in rm and "__call__" in rm, "_MetricFunctionWrapper methods", root)
-    body = [_u(s) for s in _strip_doc(rm["__init__"])]
-    _need(_params(rm["__init__"])[0] == ["self"] + BASE_PARAMS and body[0] == "self._func = func",
-          "_MetricFunctionWrapper.__init__", rm["__init__"])
+    """wrapper facts, read from what the constructor STORES (the whole super().__init__ chain is
+    executed symbolically along the MRO) and from the term __call__ (found along the MRO, helper
+    methods inlined) computes."""
+    mod = _load(repo, CLS_SRC)
     sigs = func_sigs(repo)
     out = {}
-    for fname in COQ_NAME:
-        pass
-    public = [c for c in classes.values() if not c.name.startswith("_")]
-    for c in public:
-        _need(len(c.bases) == 1 and isinstance(c.bases[0], ast.Name) and c.bases[0].id in classes,
-              "bases of " + c.name, c)
-        base = classes[c.bases[0].id]
-        m = _methods(c)
-        _need(set(m) == {"__init__"}, "methods of " + c.name, c)
-        ctor, ctor_d = _params(m["__init__"])
-        _need(ctor[0] == "self", "constructor of " + c.name, c)
+    for c in [c for c in mod.classes.values() if not c.name.startswith("_")]:
+        order = mro(mod, c)
+        _need(set(external_bases(mod, order)) <= {"BaseEstimator"}, "bases of " + c.name, c)
+        init = next((n for k in order for n in k.body
+                     if isinstance(n, ast.FunctionDef) and n.name == "__init__"), None)
+        _need(init is not None, "no constructor for " + c.name, c)
+        ctor, ctor_d, kwarg = signature(init)
+        _need(ctor[0] == "self" and kwarg is None, "constructor of " + c.name, c)
         ctor = ctor[1:]
-        ctor_defaults = [(p_, _ctor_default(c.name, p_, ctor_d[p_], m["__init__"])) for p_ in ctor]
-        local = {}
-        sup = None
-        for s in _strip_doc(m["__init__"]):
-            if isinstance(s, ast.Assign) and len(s.targets) == 1 and isinstance(s.targets[0], ast.Name) \
-                    and isinstance(s.value, (ast.Constant, ast.Name)):
-                local[s.targets[0].id] = s.value
-            elif isinstance(s, ast.Expr) and isinstance(s.value, ast.Call) and \
-                    _u(s.value.func) == "super().__init__" and not s.value.args:
-                sup = _kw(s.value)
-            else:
-                raise Unsupported("statement in %s.__init__: %s" % (c.name, _u(s)))
-        _need(sup is not None and "func" in sup, "%s does not call super().__init__" % c.name, c)
-        fv = sup["func"]
-        fv = local.get(fv.id, fv) if isinstance(fv, ast.Name) else fv
-        _need(isinstance(fv, ast.Name) and fv.id in sigs, "wrapped function of " + c.name, c)
-        # the wrapper base: own __init__ or the root's; MRO = base, its bases left to right
-        chain = [base] + [classes[b.id] for b in base.bases
-                          if isinstance(b, ast.Name) and b.id in classes]
-        _need(all(isinstance(b, ast.Name) for b in base.bases), "bases of " + base.name, base)
-        # the method lookup below is python's only if the MRO is base, then its bases left to
-        # right, and none of those inherits a method from a class of this module
-        for k in chain[1:]:
-            _need(all(isinstance(b, ast.Name) and b.id not in classes for b in k.bases),
-                  "bases of " + k.name, k)
-        _need(all(b.id in classes for b in base.bases) or base is root, "bases of " + base.name, base)
-        init = next((_methods(k)["__init__"] for k in chain if "__init__" in _methods(k)), None)
-        call = next((_methods(k)["__call__"] for k in chain if "__call__" in _methods(k)), None)
-        _need(init is not None and call is not None, "methods of " + base.name, base)
-        if init is rm["__init__"]:
-            extra_params, attr_of = [], {}
-        else:
-            extra_params, attr_of = _read_base_init(init)
-        _need(set(sup) <= set(BASE_PARAMS) | set(extra_params), "keywords of super().__init__ in "
-              + c.name, c)
+        ctor_defaults = [(p_, _ctor_default(c.name, p_, ctor_d[p_], init)) for p_ in ctor]
+        store = construct(mod, c, ctor)
+        fv = store.get("_func")
+        _need(fv is not None and fv[0] == "N" and fv[1] in sigs
+              and mod.imports.get(fv[1]) == (FUNC_MODULE, fv[1]),
+              "wrapped function of %s: %s" % (c.name, show(fv) if fv else None), c)
         attrs = {}
-        for attr, p in attr_of.items():
-            if p in sup:
-                v = sup[p]
-                attrs[attr] = ("arg", v.id) if (isinstance(v, ast.Name) and v.id in ctor
-                                                and v.id not in local) else ("fixed",)
-            else:
-                attrs[attr] = ("fixed",)       # the wrapper's own default
-        kwargs, fw = _read_call(call)
-        out[c.name] = {"func": fv.id, "ctor": ctor, "attrs": attrs, "call_kwargs": kwargs,
+        for a, v in store.items():
+            if a in BASE_ATTRS:
+                continue
+            attrs[a] = ("arg", v[1]) if (v[0] == "P" and v[1] in ctor) else ("fixed",)
+        params, defaults, kw, t = method_term(mod, c, "__call__")
+        _need(params == ["y_true", "y_pred"] and not any(defaults[p_] is not None for p_ in params),
+              "signature of %s.__call__" % c.name, c)
+        _need(t[0] == "C" and t[1] == ("ATTR", P("self"), "_func") and t[2] == (YT, YP),
+              "%s.__call__ computes %s" % (c.name, show(t)), c)
+        fw, forwards_kwargs = [], False
+        for k, v in t[3]:
+            if k == "**":
+                _need(kw is not None and v == P("**"), "** in %s.__call__" % c.name, c)
+                forwards_kwargs = True
+                continue
+            _need(v[0] == "ATTR" and v[1] == P("self"), "%s.__call__ passes %s=%s"
+                  % (c.name, k, show(v)), c)
+            fw.append((k, v[2]))
+        _need((kw is None) == (not forwards_kwargs),
+              "%s.__call__ accepts **kwargs but does not forward them" % c.name, c)
+        out[c.name] = {"func": fv[1], "ctor": ctor, "attrs": attrs, "call_kwargs": forwards_kwargs,
                        "forwards": fw, "ctor_defaults": ctor_defaults}
     missing = [f for f in sigs if f not in {v["func"] for v in out.values()}]
     _need(not missing, "functions without a class: %s" % missing)
@@ -843,3 +654,10 @@ def translate_classes(repo):
                 for n, w in sorted(facts.items())),
             "].", ""]
     return {"C06/GenWrap.v": "\n".join(text)}
+
+
+if __name__ == "__main__":
+    import sys
+    r = sys.argv[1] if len(sys.argv) > 1 else "/repo"
+    print(translate(r)["C06/Gen.v"])
+    print(translate_classes(r)["C06/GenWrap.v"])
